@@ -36,6 +36,8 @@ func init() {
 			ro.waitListForms(r, "forms")
 			ro.noLostUpdate(r, "no-lost-update")
 			ro.dequeueLoop(r, map[string]bool{"head-only": true, "pop-on-start": true})
+			ro.canceledSites(r, "canceled-site")
+			ro.acceptEffects(r, map[string]bool{"per-action": true, "admit-guard": true})
 			r.Floor("forms", 4)
 			r.Floor("no-lost-update", 1)
 			r.Floor("dequeue.", 2)
